@@ -50,7 +50,7 @@ Faults(raw) ==
   \cup { F("unset", w, i, 0) : w \in {"con_fn_missing", "con_fn_oneof", "con_eq"}, i \in DOMAIN raw.constraints }
   \cup { F("unset", w, i, 0) : w \in {"rem_c_missing", "rem_fn_missing", "rem_fn_oneof", "rem_eq"}, i \in DOMAIN raw.removed }
   \cup { F("unset", "var_kind", i, 0) : i \in DOMAIN raw.vars }
-  \cup { F("bound", w, i, 0) : w \in {"nan_lo", "nan_hi", "lo_pinf", "hi_ninf", "lo_gt_hi", "point", "absent", "free"}, i \in DOMAIN raw.vars }
+  \cup { F("bound", w, i, 0) : w \in {"nan_lo", "nan_hi", "lo_pinf", "hi_ninf", "lo_gt_hi", "point", "zero", "negzero", "absent", "free"}, i \in DOMAIN raw.vars }
   \cup { F("repeat", w, 0, 0) : w \in {"onehot_var", "sos1_var", "sos1_bigm"} }
   \cup { F("hint_on_removed", "", 0, 0), F("none", "", 0, 0) }
 HasHints(raw) == raw.hints # <<>>
@@ -104,6 +104,7 @@ Apply(raw, f) ==
     [] f.t = "bound" -> [raw EXCEPT !.vars[f.i].bound =
           CASE f.w = "nan_lo" -> B(NaN, R(1)) [] f.w = "nan_hi" -> B(R(0), NaN) [] f.w = "lo_pinf" -> B(PInf, PInf)
             [] f.w = "hi_ninf" -> B(NInf, NInf) [] f.w = "lo_gt_hi" -> B(R(2), R(1)) [] f.w = "point" -> B(R(1), R(1))
+            [] f.w = "zero" -> B(Zero, Zero) [] f.w = "negzero" -> B(R(-2), Zero)
             [] f.w = "absent" -> <<>> [] f.w = "free" -> B(NInf, PInf)]
     [] f.t = "repeat" /\ f.w = "onehot_var" -> [raw EXCEPT !.hints[1].onehot[1].vars = Append(@, @[1])]
     [] f.t = "repeat" /\ f.w = "sos1_var" -> [raw EXCEPT !.hints[1].sos1[1].vars = Append(@, @[1])]
